@@ -330,10 +330,17 @@ class ECDSAKey(PKey):
         else:
             self._got_bad_key_format_id(pkformat)
 
+        if not isinstance(key, ec.EllipticCurvePrivateKey):
+            raise SSHException("not an EC private key")
+        curve_class = key.curve.__class__
+        curve = self._ECDSA_CURVES.get_by_curve_class(curve_class)
+        if curve is None:
+            raise SSHException(
+                "Can't handle curve of type {}".format(key.curve.name)
+            )
         self.signing_key = key
         self.verifying_key = key.public_key()
-        curve_class = key.curve.__class__
-        self.ecdsa_curve = self._ECDSA_CURVES.get_by_curve_class(curve_class)
+        self.ecdsa_curve = curve
 
     def _sigencode(self, r, s):
         msg = Message()
